@@ -35,6 +35,17 @@ PROPS["C01"] = _e1({
                          "identity_cases": 10000}},
 })
 
+PROPS["C02"] = _e1({
+    "rule": "product states (a in u, b in v) for all types with reference unit x all ordered unit pairs x a in V u S "
+            "x b in V u S u {same-magnitude partner of a in v and its two neighbours}; on every state ==, !=, <, <=, >, "
+            ">= and partial_cmp are evaluated in BOTH operand orders (14 transitions) and judged for order "
+            "independence (all non-NaN amounts), for agreement with the exact order of magnitudes whenever these differ "
+            "by more than one conversion error, and for identity with the amount type's comparison when units are equal. "
+            + V_DESC + ". non-trivial = cross-unit states that are equal by construction or decided by the exact order",
+    "floors": {"quick": {"types": 20, "states": 500000, "equal_by_construction": 5000, "decided": 200000,
+                         "same_unit_cases": 50000, "order_independence_checked": 400000}},
+})
+
 
 def setup():
     t0 = time.time()
